@@ -90,10 +90,13 @@ def gen(rng, tier):
     # two preemptions: t0 runs to a point, t1 runs k points (e.g. wins the Open->Half-Open race and still holds its probe),
     # then t0 continues (seed C16-d: the effect needs the loser to finish while the winner's probe is in flight)
     s1, s2 = (2, 3) if tier == "quick" else (1, 1)
-    for kind in "ab":
+    for kind in "abd":
+        # (d): a completion of an entry admitted before the trip races with the probe's completion (two completions in Half-Open)
         base = case(rng, kind, choices=[], n=2)
-        for pos in range(0, 48, s1):
-            for k in range(1, 48, s2):
+        lo, hi = (0, 48) if kind != "d" else (28, 64)
+        st1, st2 = (s1, s2) if kind != "d" else ((4, 9) if tier == "quick" else (1, 2))
+        for pos in range(lo, hi, st1):
+            for k in (range(1, 48, st2) if kind != "d" else range(150, 420, st2)):
                 c = [0] * (pos + k + 1); c[pos] = 1; c[pos + k] = 1
                 cases.append(base[:-2] + [fmt(c), "brstate res=a"])
     return cases
